@@ -603,6 +603,9 @@ func init() {
 				if f == "" {
 					f = c08After(true, true, true)
 				}
+				for k := 0; k < 8 && f == ""; k++ {
+					f = c08InFlight(k&1 == 1, k&2 == 2, k>>2)
+				}
 				if f != "" {
 					ctx.Case(c, "", "real-ticker", "")
 					ctx.Fail("close_is_a_complete_idempotent_barrier", f, c, nil)
@@ -639,6 +642,16 @@ func init() {
 			}
 		}
 		ctx.Res.Extra["real_ticker_failures"] = fails
+		// Close called while a periodic pass is stalled inside one scope's delivery, with recording in between
+		for k := 0; k < 8; k++ {
+			cs := map[string]interface{}{"close_during_stalled_delivery": true, "cached": k&1 == 1, "closer": k&2 == 2, "stalled_scope": k >> 2}
+			f := c08InFlight(k&1 == 1, k&2 == 2, k>>2)
+			ctx.Case(cs, "", "close-during-stalled-delivery", "")
+			if f != "" {
+				ctx.Fail("close_is_a_complete_idempotent_barrier", f, cs, nil)
+				break
+			}
+		}
 		// several goroutines call the root's Close at the same moment (uncontrolled: the test-and-set in
 		// Close has no yield point inside): no panic, one of them performs the shutdown, the others return
 		// nil, the reporter is closed once, everything recorded is delivered
